@@ -85,6 +85,8 @@ type state struct {
 	suspendedExec atomic.Int64
 	maskedRI      atomic.Int64
 	badArgExecs   atomic.Int64
+	notRun        atomic.Int64
+	stop          func() bool
 	hung          atomic.Int64
 }
 
@@ -146,6 +148,8 @@ func (s *state) handle(worker int, progs []*cdrive.ProgInfo) {
 		return
 	}
 	defer b.Remove()
+	b.Stop = s.stop
+	defer func() { s.notRun.Add(int64(b.NotRun)) }()
 	s.batches.Add(1)
 	s.unsupported.Add(int64(len(b.Unsup)))
 	for _, pi := range b.Unsup {
@@ -237,6 +241,16 @@ func (s *state) handle(worker int, progs []*cdrive.ProgInfo) {
 				s.crashSamples = append(s.crashSamples, map[string]any{"family": pi.Family, "tags": pi.Tags, "configuration": cfg.Name, "kind": c.Kind, "stderr": c.Stderr, "program": pi.Src})
 			}
 			s.mu.Unlock()
+			if k := len(c.Partial) / 8; c.Kind == "watchdog" && k < jobs[c.Prog].NumExecs() {
+				if ba, isBad := jobs[c.Prog].BadArgOf(k); isBad {
+					hist, call := jobs[c.Prog].History(k)
+					s.r.Violation(fmt.Sprintf("argcheck|%s|%s", ba.Type, ba.Bound),
+						fmt.Sprintf("a public call with an out-of-domain argument (%s, %s bound) was not refused: the compiled C (%s) ran its body and did not finish within the watchdog period", ba.Type, ba.Bound, cfg.Name),
+						Witness{Family: pi.Family, Tags: pi.Tags, Program: pi.Src, Config: cfg.Name, History: hist, Call: call, Item: "process death: watchdog",
+							Interp: "call refused by the argument check (#base: bad argument / zero value, impure receiver disabled)", Note: c.Stderr})
+					continue
+				}
+			}
 			if c.Kind == "watchdog" {
 				s.r.Violation(fmt.Sprintf("%s|c-hang|%s", strings.SplitN(pi.Family, "@", 2)[0], strings.Join(cdrive.Constructs(pi.Src), ",")),
 					"the compiled C did not finish a program whose every execution terminates in the reference interpreter",
@@ -437,7 +451,7 @@ func main() {
 	s := &state{r: r, tools: tools, famPrograms: map[string]int64{}, famCompared: map[string]int64{}, constructs: map[string]int64{},
 		statuses: map[string]int64{}, crashKinds: map[string]int64{}, cfgCompared: map[string]int64{}, sampleFam: map[string]int{}, compileSec: map[string]float64{}, gccKinds: map[string]bool{}}
 	cfg := cdrive.WalkConfig{Tier: r.Tier, BatchSize: 96,
-		Families: []string{"argcheck", "extras", "loops", "iterate", "calls", "pure", "io", "coro", "seeds", "arith", "index", "refine", "facts"},
+		Families: []string{"argcheck", "extras", "seeds", "loops", "iterate", "calls", "pure", "arith", "io", "coro", "index", "refine", "facts"},
 		Extra:    map[string]progen.Family{"extras": extras(), "argcheck": argcheck()},
 		MaxLevel: map[string]int{},
 	}
@@ -465,6 +479,7 @@ func main() {
 		}
 		return r.Expired()
 	}
+	s.stop = cfg.Stop
 	s.opt = cdrive.Options{Depth: 2, MaxExec: 1500, MaxStates: 4096, MaxTuples: 1024}
 	s.configs = []cdrive.Config{cdrive.AsanO1}
 	s.lazyO2 = true
@@ -475,7 +490,7 @@ func main() {
 		// the quick grammars, the thorough grammars of the families that are about
 		// cgen's lowering (loops, calls, arith), then - as far as the budget goes -
 		// the thorough io / coro grammars (coroutines are C05's main course).
-		cfg.Families = []string{"argcheck", "extras", "loops", "iterate", "calls", "pure", "seeds", "io@quick", "coro@quick", "arith@quick", "index@quick", "refine@quick", "facts@quick",
+		cfg.Families = []string{"argcheck", "extras", "seeds", "loops", "iterate", "calls", "pure", "arith@quick", "io@quick", "coro@quick", "index@quick", "refine@quick", "facts@quick",
 			"arith", "io", "coro", "index"}
 		cfg.MaxLevel["facts@quick"], cfg.MaxLevel["refine@quick"] = 2, 3
 	} else {
@@ -550,7 +565,7 @@ func main() {
 			"evaluations = trace-record comparisons (program, history, C configuration); distinct non-trivial = programs whose executions produced at least two different trace records, all of which the compiled C reproduced",
 		Programs:      s.programs.Load(),
 		Disagreements: s.histories.Load(),
-		Exhaustive:    s.cappedProgs.Load() == 0,
+		Exhaustive:    s.cappedProgs.Load() == 0 && s.notRun.Load() == 0,
 		Explanation:   "programs = accepted programs compiled to C and run; disagreements_checked = (program, history) pairs whose trace record was compared between the reference interpreter and the compiled C (each in every configuration listed)",
 		Extra: map[string]any{
 			"families": fams, "programs_generated": generated, "programs_accepted": accepted,
@@ -560,6 +575,7 @@ func main() {
 			"interpreter_executions_that_hit_the_step_limit (not replayed)":                                             s.hung.Load(),
 			"executions_with_an_out_of_domain_argument (refined bound -/+ 1, type min / max, -1, NULL io)":              s.badArgExecs.Load(),
 			"programs_left_out_because_an_iterate_body_assigns_to_its_iterate_variable":                                 iterateReassigned.Load(),
+			"programs_not_run_after_two_watchdog_periods_in_their_batch":                                                s.notRun.Load(),
 			"executions_ending_in_a_suspension":                                                                         s.suspendedExec.Load(),
 			"programs_with_capped_exploration":                                                                          s.cappedProgs.Load(),
 			"programs_whose_signature_the_driver_cannot_call":                                                           s.unsupported.Load(),
